@@ -261,6 +261,9 @@ inductive Ret | ok | fail | eof | readErr
   /-- errors that *wrap* a sentinel (`fmt.Errorf("…: %w", x)`) or join it with another error:
   they are not identical to the sentinel, `errors.Is` / `errors.As` still find it -/
   | wrapEof | wrapUeof | wrapStanza | wrapStream | joinEof
+  /-- the handler returns the error of `jid.Parse` on the stanza's to / from attribute (what the
+  multiplexer's routers do when `stanza.NewIQ` / `NewMessage` / `NewPresence` fail) -/
+  | addrErr
   deriving DecidableEq, Repr, Inhabited
 
 structure Prog where
@@ -414,6 +417,7 @@ def handleElem (cfg : Cfg) (n : Name) (as : List Attr) (rs1 : RS) (prog : Prog) 
   | .wrapStanza => .stop (some inv) ws1.out (.error .handler)
   | .joinEof => .stop (some inv) ws1.out (.error .handler)
   | .wrapStream => .stop (some inv) ws1.out (.error (.streamError "policy-violation"))
+  | .addrErr => .stop (some inv) ws1.out (.error .badJid)
   | .readErr =>
     (match es1.rs.sticky with
      | some (.err e) => .stop (some inv) ws1.out (.error e)
@@ -512,10 +516,13 @@ def addrOf (cfg : Cfg) (as : List Attr) (l : String) : Option (Option String) :=
 stanza namespace is the stream's: `p` is the program of the registered IQ handler -/
 def muxEffective (reg : Bool) (cfg : Cfg) (n : Name) (as : List Attr) (body : List Tok) (p : Prog) : Prog :=
   if !isStanza n cfg.ns then Prog.nop
-  else if n.loc != "iq" then Prog.nop
   else
+    -- every router first turns the start element into a stanza value: an address that does not
+    -- parse ends the routing with the parse error, whatever the type and wherever the attribute
+    -- stands among the others; nothing is written
     match addrOf cfg as "from", addrOf cfg as "to" with
     | some frm, some to =>
+      if n.loc != "iq" then Prog.nop else
       let typ := getTyp as
       let run : Prog :=
         if reg && isDefinedIqTyp typ then p.writesOnly
@@ -525,7 +532,37 @@ def muxEffective (reg : Bool) (cfg : Cfg) (n : Name) (as : List Attr) (body : Li
        | .bad => { ops := List.replicate (payloadReads body) .read, ret := .readErr }
        | .none => if typ == "result" then run else { ops := [], ret := .eof }
        | .elem _ => run)
-    | _, _ => { ops := [], ret := .fail }
+    | _, _ => { ops := [], ret := .addrErr }
+
+/-- `iq.Result(nil)`: the reply a handler builds from the IQ `stanza.NewIQ` parsed — the request
+with to/from swapped, type result and **the id exactly as it was read** -/
+def resultReply (n : Name) (id : String) (to frm : Option String) : List Tok :=
+  [ .start ⟨n.space, "iq"⟩
+      ([attr "type" "result"] ++ (match to with | some c => [attr "to" c] | none => [])
+        ++ (match frm with | some c => [attr "from" c] | none => [])
+        ++ (if id != "" then [attr "id" id] else [])),
+    .stop ⟨n.space, "iq"⟩ ]
+
+/-- the program the session's handler effectively runs when it is a `mux.ServeMux` with an IQ
+handler registered for the wildcard payload of get and set that answers with `iq.Result(nil)`
+— what most IQ handlers do: the reply is built from the parsed `stanza.IQ`, not from the start
+element (nothing is registered for result / error) -/
+def muxAnswering (cfg : Cfg) (n : Name) (as : List Attr) (body : List Tok) : Prog :=
+  if !isStanza n cfg.ns then Prog.nop
+  else
+    match addrOf cfg as "from", addrOf cfg as "to" with
+    | some frm, some to =>
+      if n.loc != "iq" then Prog.nop else
+      let typ := getTyp as
+      let run : Prog :=
+        if isRequestTyp typ then { ops := [.write (resultReply n (getId as) frm to)], ret := .ok }
+        else if isReplyTyp typ then Prog.nop
+        else { ops := [.write (fallbackReply n (getId as) frm to)], ret := .ok }
+      (match firstPayload body with
+       | .bad => { ops := List.replicate (payloadReads body) .read, ret := .readErr }
+       | .none => if typ == "result" then run else { ops := [], ret := .eof }
+       | .elem _ => run)
+    | _, _ => { ops := [], ret := .addrErr }
 
 /-- the first element of the input with the from normalisation applied, and the tokens after
 its start tag -/
